@@ -6,7 +6,7 @@
    nothing above the head), verify-hash index = l, head record = head of l, no marks, every root
    openable, executed-transaction store = the transactions of l. *)
 From Coq Require Import List NArith Bool Lia.
-From V.C05 Require Import Model Proofs.
+From V.C05 Require Import Model Proofs Pending.
 Import ListNotations.
 Local Open Scope N_scope.
 
@@ -147,6 +147,30 @@ Theorem C05_genesis_crash_safe : forall U gen, tree_ok U -> txs gen = [] -> fora
 Proof. intros U gen _. exact (genesis_crash_safe gen). Qed.
 Print Assumptions C05_genesis_crash_safe.
 
+(* Pool clause, volatile half (crash-free): the pool object is C17's model (coq/C17/Model.v), driven by
+   the chain's WExec / WUnexec writes (pstep). For ANY write list ws that takes the store from the image
+   of chain l to the image of chain l' - one delivery with its reorg and chained orphans, one fork
+   switch call, complete or stopped half way - starting from a pool whose executed store agrees with
+   the chain's and whose pending list is disjoint from it and has room: every transaction of a block
+   of l that no block of l' carries is pending afterwards; every transaction of l' is executed and not
+   pending. *)
+Theorem C05_pending_again : forall lim ws s l l' p,
+  rep s l -> rep (apply ws s) l' -> rel s p -> dis p ->
+  N.of_nat (length (V.C17.Model.received p) + length ws) <= lim ->
+  let p' := pool_after lim ws p in
+  (forall t, E l t = true -> E l' t = false -> Pending.R p' t = true) /\
+  (forall t, E l' t = true -> Pending.X p' t = true /\ Pending.R p' t = false) /\
+  rel (apply ws s) p' /\ dis p'.
+Proof.
+  intros lim ws s l l' p R0 R1 Hrel Hdis Hcap. cbn zeta.
+  destruct (pending_trace lim ws s p Hrel Hdis Hcap) as [T1 [T2 T3]].
+  split; [|split; [|split]]; auto.
+  - intros t H0 H1. apply T3. left. now rewrite (r_exec _ _ R0). now rewrite (r_exec _ _ R1).
+  - intros t H1. assert (Hx : Pending.X (pool_after lim ws p) t = true) by (rewrite T1, (r_exec _ _ R1); exact H1).
+    split; auto. destruct (Pending.R (pool_after lim ws p) t) eqn:Er; auto. rewrite (T2 t Er) in Hx. discriminate.
+Qed.
+Print Assumptions C05_pending_again.
+
 (* ---- non-vacuity and order-sensitivity on a concrete tree ---- *)
 Definition g0 := mkB 1 0 0 0 0 100 [].
 Definition a1 := mkB 2 1 1 1 5 101 [7].
@@ -240,4 +264,17 @@ Example C05_fork_switch_weight_refuted :
   option_map qn (cur s1) = Some 3 /\ qn (f_latest fk) = 5 /\
   done = false /\ option_map qn (cur (apply ws s1)) = Some 2 /\
   (let '(ws', done', _, _, _) := fork_trigger 10 v2 (apply ws s1) fk' in ws' = [] /\ done' = false).
+Proof. vm_compute. repeat split; reflexivity. Qed.
+
+
+(* hypotheses of C05_pending_again are satisfiable, and the conclusion is not vacuous: after [a2; a1; b1]
+   (reorg from g0-a1-a2 to g0-b1) transactions 7 and 8 are pending, 9 is executed. *)
+Example C05_pending_example :
+  let v0 : vol := (fun _ => None, []) in
+  let s0 := fst (run 10 v0 (st_of [g0]) [a2; a1]) in
+  let ws := fst (fst (fst (add_writes 10 (fun _ => None) [] s0 b1))) in
+  let p0 := pool_after 100 (insert_writes a1 ++ insert_writes a2) V.C17.Model.empty in
+  let p1 := pool_after 100 ws p0 in
+  map (Pending.X p0) [7; 8; 9] = [true; true; false] /\
+  map (Pending.R p1) [7; 8; 9] = [true; true; false] /\ map (Pending.X p1) [7; 8; 9] = [false; false; true].
 Proof. vm_compute. repeat split; reflexivity. Qed.
